@@ -42,7 +42,11 @@ pub fn judge_case(c: &Case) -> Obs {
     // with end of input instead of `quit`, the debugger legitimately reads the rest of stdin as
     // commands (shared stream): such sessions get no program input
     let input: Vec<u8> = if c.explicit_quit { c.input.clone() } else { vec![] };
-    let rr = refvm::run(Vm::load(p.orig, &p.img.words, p.built.stack), &input, BUDGET, Some(0xFFFD));
+    let budget = BUDGET + proggen::extra_budget(&c.spec);
+    if c.spec.spin > 0 {
+        obs.label("one-stretch-longer-than-65536-instructions");
+    }
+    let rr = refvm::run(Vm::load(p.orig, &p.img.words, p.built.stack), &input, budget, Some(0xFFFD));
     match &rr.stop {
         RunStop::OutOfFuel => {
             obs.excluded = Some("program does not terminate within the budget");
@@ -81,11 +85,11 @@ pub fn judge_case(c: &Case) -> Obs {
     }
     let plain = lacebox::run_session(
         Load::Source { text: p.text.clone(), debugger: None },
-        RunSpec { stack: p.built.stack, minimal: true, fuel: BUDGET + 2, input: input.clone() },
+        RunSpec { stack: p.built.stack, minimal: true, fuel: budget + 2, input: input.clone() },
     );
     let Some(po) = outcome_of(&mut obs, "C09", &plain, &shown) else { return obs };
     let fuel = 8 * (rr.steps + cmds.len() as u64 + 2) + 64;
-    let dbg = run_lace(&p, &script, &input, fuel);
+    let dbg = run_lace_arg(&p, &script, &input, fuel);
     let Some(d) = outcome_of(&mut obs, "C09", &dbg, &shown) else { return obs };
     if d.stop == Stop::OutOfFuel {
         // the plain run stops after rr.steps instructions; a debugged run that does not come back
@@ -156,7 +160,7 @@ pub fn judge_cli(c: &Case) -> Obs {
         obs.label(l);
     }
     let input: Vec<u8> = if c.explicit_quit { c.input.clone() } else { vec![] };
-    let rr = refvm::run(Vm::load(p.orig, &p.img.words, p.built.stack), &input, BUDGET, Some(0xFFFD));
+    let rr = refvm::run(Vm::load(p.orig, &p.img.words, p.built.stack), &input, BUDGET + proggen::extra_budget(&c.spec), Some(0xFFFD));
     if matches!(rr.stop, RunStop::OutOfFuel | RunStop::Unspecified(_)) || rr.printed_escape || input.iter().take(rr.consumed).any(|b| *b >= 0x80) {
         obs.excluded = Some("not a terminating, fully specified run");
         return obs;
@@ -198,7 +202,7 @@ pub fn judge_cli(c: &Case) -> Obs {
 }
 
 fn cases() -> impl Strategy<Value = Case> {
-    let spec = crate::pick![5 => proggen::prog_spec(24).boxed(), 1 => proggen::raw_image_spec(super::c03::image_words()).boxed()];
+    let spec = crate::pick![5 => proggen::with_spin(proggen::prog_spec(24)).boxed(), 1 => proggen::raw_image_spec(super::c03::image_words()).boxed()];
     (spec, prop::collection::vec(raw_cmd(), 0..14), input_bytes(), any::<bool>()).prop_map(|(spec, cmds, input, explicit_quit)| Case { spec, cmds, input, explicit_quit })
 }
 
